@@ -15,7 +15,14 @@
    hold for whatever lines they yield); list.Dynamic is modelled in its initial scroll state and
    in the states a history of draws without events reaches from it (scrolling by events is
    C19); styles and the cursor part of render are not modelled.  The contract is proved for a
-   single draw of a fresh value and for every draw of every history of draws on one value. *)
+   single draw of a fresh value and for every draw of every history of draws on one value.
+   Render is proved for ANY window handed to Surface.render (any chain of Window.New frames:
+   larger than the root surface — App.Run hands the root the whole terminal window —, equal,
+   smaller, offset): besides the pointwise [shown] specification, every painted cell is a
+   buffer cell of some node at its offset, inside the window's clip and inside the rectangle
+   of every ancestor of that node below the root (C14_render_clipped_to_all_ancestors); the
+   root's own clip is the window it is handed (Surface.render's interface), so children of a
+   root that is smaller than its window are clipped to that window, not to the root surface. *)
 From Vx Require Import base.Prelude model.Surface model.Widgets model.WidgetsHist
   proofs.SurfaceProofs proofs.WidgetsProofs proofs.RenderProofs proofs.PaintProofs
   proofs.WidgetsHistProofs.
